@@ -2,3 +2,4 @@ import CC.Thm.C10
 #print axioms CC.Thm.C10.dec_enc
 #print axioms CC.Thm.C10.enc_dec
 #print axioms CC.Thm.C10.mix_inverse
+#print axioms CC.Thm.C10.source_glue_match
